@@ -126,6 +126,28 @@ def ob_waiter_vs_idle(w: int, it: int) -> bool:
     return obs["status"] == "completed" and obs["result"] == "timeout"
 
 
+class Stray(Event):
+    """an event no step and no waiter of the retry workflow accepts"""
+
+
+@obligation(quick=240, thorough=600, partitions_quick=[f"it == {i}" for i in (1, 2, 3)],
+            partitions_thorough=[f"it == {i} and d == {d}" for i in (1, 2, 3, 4) for d in (1, 2, 3)],
+            what="a client event NOBODY accepts arrives while a failed step waits out its retry delay d (it is reported as unhandled, possibly "
+                 "flagged idle by the reducer, which cannot see the timer heap): the run is still not released before the retry — the step is "
+                 "retried and the run completes, for every order of {stray event, retry, idle_timeout}",
+            bounds={"d": "1..3", "idle_timeout": "1..3 (thorough 4)", "stray event instant": "0..d"})
+def ob_unhandled_event_during_retry_vs_idle(d: int, it: int, at: int) -> bool:
+    """
+    pre: 1 <= d <= DMAX and 1 <= it <= ITMAX and 0 <= at <= d
+    post: _
+    """
+    d, it, at = conc(d, 1, 3), conc(it, 1, 4), conc(at, 0, 3)
+    obs = run_first(lambda: _retry_wf(d, 1), idle_timeout=it, horizon=d + it + 6, sends=[(at, 0)], make_event=lambda p: Stray())
+    if obs["loop_exceptions"]:
+        return False
+    return obs["status"] == "completed" and obs["result"] == 1 and obs["aborts"] == 0
+
+
 class _TwoWaits(Workflow):
     """two waits in a row, nobody answers: the first timeout wakes the step, which parks again (a second idle period begins while the
     release timer of the first one is still pending)"""
